@@ -83,7 +83,8 @@ ShadowCase(x) ==
 RegDepIns == { Lw("t0", "a0", 0), Li("t0", 5), Addi("t0", "t0", 1), AddI("t1", "t0", "t0"), I("mv", "t0", "t1", "zero", 0, 0),
                Addi("t1", "t0", 2), I("mul", "t1", "t1", "t0", 0, 0), Li("t1", 3), I("sub", "t0", "t1", "t0", 0, 0),
                Lw("t1", "a0", 4), I("mv", "t2", "t0", "zero", 0, 0), AddI("t2", "t2", "t1"),
-               AddI("t2", "t1", "t0"), I("mul", "t3", "t0", "t0", 0, 0) }
+               AddI("t2", "t1", "t0"), I("mul", "t3", "t0", "t0", 0, 0),
+               Sw("t1", "a1", 64) }   \* a store miss keeps the write path busy while registers are produced and consumed
 RegDepCases == { <<s, img>> : s \in UpTo(RegDepIns, IF Size = "large" THEN 4 ELSE 3), img \in {"ramp"} }
 RegDepCase(x) ==
   LET p == x[1] \o <<Nop>>
@@ -121,7 +122,9 @@ MemDepCases == { <<pr, d, f, warm, busy>> : pr \in MemPairs, d \in 1 .. (IF Size
                                           warm \in BOOLEAN, busy \in BOOLEAN }
 MemDepCase(x) ==
   LET pr == x[1] d == x[2]
-      pro == IF x[4] THEN <<Lw("t3", "a0", 8), Nop, Nop>> ELSE <<>>
+      \* warm: the line is loaded first and both address registers are made to depend on that load,
+      \* so that the pair executes once the line is resident
+      pro == IF x[4] THEN <<Lw("t3", "a0", 8), I("andi", "t3", "t3", "zero", 0, 0), AddI("a0", "a0", "t3"), AddI("a1", "a1", "t3")>> ELSE <<>>
       bz == IF x[5] THEN <<Sw("t0", "a1", 64)>> ELSE <<>>
       p == pro \o bz \o <<pr[1]>> \o [k \in 1 .. (d - 1) |-> x[3]] \o <<pr[2]>> \o <<Nop, Nop>>
       r0 == Regs0(64, 64, -2, 287454020, 0, 0)
